@@ -184,6 +184,39 @@ type c18Proc struct {
 	rejKey func(string) string
 	hidden func(string) bool
 	seen   chan string
+	gate   *c18Gate
+}
+
+// c18Gate holds the first processor call that arrives (the creation of the rules of a big rule set takes its time)
+// until it is released; every other call passes. Used to let things happen while Start is in its initial load.
+type c18Gate struct {
+	mu      sync.Mutex
+	n       int
+	entered chan struct{}
+	release chan struct{}
+}
+
+func newC18Gate() *c18Gate {
+	return &c18Gate{entered: make(chan struct{}), release: make(chan struct{})}
+}
+
+func (g *c18Gate) pass() {
+	g.mu.Lock()
+	g.n++
+	first := g.n == 1
+	g.mu.Unlock()
+
+	if first {
+		close(g.entered)
+		<-g.release
+	}
+}
+
+func (g *c18Gate) count() int {
+	g.mu.Lock()
+	defer g.mu.Unlock()
+
+	return g.n
 }
 
 func (p *c18Proc) handle(kind string, rs *rconfig.RuleSet, f func(*rconfig.RuleSet) error) error {
@@ -194,6 +227,10 @@ func (p *c18Proc) handle(kind string, rs *rconfig.RuleSet, f func(*rconfig.RuleS
 		p.seen <- kind + " " + rs.Source
 
 		return err
+	}
+
+	if p.gate != nil {
+		p.gate.pass()
 	}
 
 	ids := []string{}
@@ -587,16 +624,80 @@ func runProvFS(c map[string]any, live bool) (any, error) {
 
 	ctx := context.Background()
 	env.proc.setRej(obj(c["start"]))
-	startErr := prov.Start(ctx)
+
+	var startErr error
+
+	during := getArr(c, "during")
+	if live && len(during) > 0 {
+		// files are replaced while Start is inside the first processor call of its initial load: the call is held,
+		// the files are moved in, whoever else handles rule files at that time (nobody, on one goroutine) gets the
+		// chance to do so, then the call is let go
+		gate := newC18Gate()
+		env.proc.gate = gate
+		done := make(chan error, 1)
+		finished := false
+
+		go func() { done <- prov.Start(ctx) }()
+
+		held := false
+
+		if !c18Await(func() bool {
+			select {
+			case <-gate.entered:
+				held = true
+
+				return true
+			case startErr = <-done:
+				finished = true
+
+				return true
+			default:
+				return false
+			}
+		}) {
+			return nil, errors.New("file system provider neither called the processor nor returned from Start")
+		}
+
+		if held {
+			for _, f := range during {
+				fm := obj(f)
+				if err = setFile(getInt(fm, "k"), obj(fm["file"])); err != nil {
+					close(gate.release)
+
+					return nil, err
+				}
+			}
+
+			for i := 0; i < 400 && gate.count() < 2; i++ {
+				time.Sleep(500 * time.Microsecond)
+			}
+
+			close(gate.release)
+		}
+
+		if !finished {
+			if !c18Await(func() bool {
+				select {
+				case startErr = <-done:
+					return true
+				default:
+					return false
+				}
+			}) {
+				return nil, errors.New("file system provider did not return from Start")
+			}
+		}
+	} else {
+		startErr = prov.Start(ctx)
+	}
 
 	defer prov.Stop(ctx) //nolint:errcheck
 
-	out := map[string]any{"start": env.snapshot(filesystem.VerifC18States(prov), startErr)}
 	steps := []any{}
 
 	if live && startErr != nil {
 		// the watcher is only set up after the initial load succeeded; heimdall would not come up
-		out["steps"] = steps
+		out := map[string]any{"start": env.snapshot(filesystem.VerifC18States(prov), startErr), "steps": steps}
 
 		return out, nil
 	}
@@ -638,6 +739,15 @@ func runProvFS(c map[string]any, live bool) (any, error) {
 
 		return nil
 	}
+
+	if live && len(during) > 0 {
+		// the source has settled: everything notified so far has been handled
+		if err = barrier(); err != nil {
+			return nil, err
+		}
+	}
+
+	out := map[string]any{"start": env.snapshot(filesystem.VerifC18States(prov), startErr)}
 
 	for _, s := range getArr(c, "steps") {
 		step := obj(s)
